@@ -1,0 +1,23 @@
+//go:build verif
+
+package esql
+
+import (
+	"github.com/bmeg/grip/gdbi"
+	"github.com/bmeg/grip/timestamp"
+	"github.com/jmoiron/sqlx"
+)
+
+// VerifNewGraph builds a Graph around an injected database handle and schema
+// (verification harness only: lets a recording database/sql driver observe the
+// statements).
+func VerifNewGraph(db *sqlx.DB, schema *Schema) gdbi.GraphInterface {
+	ts := timestamp.NewTimestamp()
+	return &Graph{db: db, ts: &ts, graph: schema.Graph, schema: schema}
+}
+
+// VerifNewGraphDB builds a GraphDB around an injected database handle.
+func VerifNewGraphDB(db *sqlx.DB, graphs []*Schema) gdbi.GraphDB {
+	ts := timestamp.NewTimestamp()
+	return &GraphDB{db: db, graphs: graphs, ts: &ts}
+}
